@@ -11,6 +11,10 @@ if "--round2" in args:
     args.remove("--round2")
     root = "/tmp/seed2"
     rename = {"A": "C", "B": "D"}
+if "--round8" in args:
+    args.remove("--round8")
+    root = "/tmp/seed8"
+    rename = {"A": "O", "B": "P"}
 if "--round7" in args:
     args.remove("--round7")
     root = "/tmp/seed7"
